@@ -233,7 +233,21 @@ let judge_s (input : string) (impl : string) (model : string) : verdict =
 let judge_f (input : string) (impl : string) (model : string) : verdict =
   let probes = match split_on '|' input with [_; _; _; p] -> csv (if p = "-" then "" else p) | _ -> [] in
   let get n s = match field n s with Some v -> v | None -> "" in
+  (* the selection is judged against the documented preference list (Model/CmapSpec.v), not only
+     against the cascade regenerated from font.rs *)
+  let spec_sel =
+    match split_on '|' input with
+    | [_; h; _; _] ->
+      (match parse_cmap (bytes_of_hex h) with
+       | Ok recs ->
+         (match spec_find_good recs with
+          | None -> "none"
+          | Some (enc, r) -> enc_name enc ^ "@" ^ z_to_string r.er_offset)
+       | _ -> get "sel" model)
+    | _ -> get "sel" model in
   if get "sel" impl = "p" then Violation ("panic", "Cmap::read / find_good_cmap_subtable panicked")
+  else if get "sel" impl <> spec_sel && not (starts_with "e" (get "sel" impl)) then
+    Violation ("selection", Printf.sprintf "selected sub-table %s, the documented preference order selects %s" (get "sel" impl) spec_sel)
   else if get "sel" impl <> get "sel" model then
     Violation ("selection", Printf.sprintf "selected sub-table %s, specified %s" (get "sel" impl) (get "sel" model))
   else begin
